@@ -561,6 +561,8 @@ class Agent(dbus.service.Object):
 
             # Size left for transfer data
             remain_size = mtu - len(msg_head) - 8
+            if remain_size <= 0:
+                raise ValueError('MTU {} too small to segment transfer {}'.format(mtu, item.transfer_id))
 
             seg_idx = 0
             seg_offset = 0
@@ -630,8 +632,11 @@ class Agent(dbus.service.Object):
 
         msg_iter = self._send_transfer(item)
         # FIXME synchronous
-        for data in msg_iter:
-            sender(data)
+        try:
+            for data in msg_iter:
+                sender(data)
+        except ValueError as err:
+            self.__logger.error('Failed to send transfer: %s', err)
 
         return bool(self._tx_queue)
 
